@@ -35,6 +35,9 @@ func (s *State) evalAssignment(right object.Object, node *ast.InfixExpression) o
 			return s.Errorf("assignment to non index [] expression %T %v", node.Left, ast.DebugString(node.Left))
 		}
 		index := s.Eval(idxE.Index)
+		if index.Type() == object.ERROR {
+			return index
+		}
 		return s.evalIndexAssigment(idxE.Left, index, right)
 	case token.IDENT:
 		id := node.Left.(*ast.Identifier)
@@ -368,11 +371,17 @@ func (s *State) evalMapLiteral(node *ast.MapLiteral) object.Object {
 	for _, keyNode := range node.Order {
 		valueNode := node.Pairs[keyNode]
 		key := object.Value(s.Eval(keyNode)) // copy registers, we store the value.
+		if key.Type() == object.ERROR {
+			return key
+		}
 		if !object.Equals(key, key) {
 			log.Warnf("key %s is not hashable", key.Inspect())
 			return s.NewError("key " + key.Inspect() + " is not hashable")
 		}
 		value := object.Value(s.Eval(valueNode))
+		if value.Type() == object.ERROR {
+			return value
+		}
 		result = result.Set(key, value)
 	}
 	return result
